@@ -267,6 +267,11 @@ func (s *CAStore) addToMemoryCache(
 	}
 
 	data := tmpWriter.Bytes()
+	if uint64(len(data)) != size {
+		// The reservation covers exactly size bytes; holding a blob of any other
+		// length would make the memory cache accounting drift from what it stores.
+		return fmt.Errorf("blob length %d does not match reserved size %d", len(data), size)
+	}
 	metaInfo, err := s.generateMetadataFromBytes(name, data, pieceLength)
 	if err != nil {
 		return fmt.Errorf("generating metainfo: %w", err)
